@@ -458,7 +458,7 @@ struct Exec {
         std::string s = valid ? std::string("h\xc3\xa9llo").substr(0, 6) : std::string("ab\xff" "cd");
         {
           Fn f = make_fn(cid);
-          auto r = x.tok->greet(s, std::move(f));
+          auto r = (o.n % 2 == 0) ? x.tok->greet(s, std::move(f)) : x.tok->greet_after(std::move(f), s);
           if (r.is_ok() != valid) { fail("O5-value-integrity", "greet: UTF-8 validation outcome wrong"); break; }
           if (valid) { if (std::move(r).ok().value() != (uint32_t)s.size() + cid) fail("O5-value-integrity", "greet result wrong"); }
           else inc("fault_invalid_utf8_short_circuit_fired");
